@@ -69,6 +69,10 @@ pub fn walpha(name: &str) -> Vec<f64> {
         "w012" => vec![0.0, 1.0, 2.0],
         "wf" => vec![0.1, 0.2, 0.3],
         "wneg" => vec![-5.0, 1.0, 2.0],
+        // exact powers of two far from 1: every sum of a few of them is exact, so the oracles stay exact, while any
+        // absolute tolerance or magnitude assumption in the code under check shows (scale invariance)
+        "wtiny" => vec![2f64.powi(-60), 2f64.powi(-59)],
+        "whuge" => vec![2f64.powi(60), 2f64.powi(61)],
         o => panic!("unknown weight alphabet {o}"),
     }
 }
@@ -82,10 +86,188 @@ pub struct Family {
     pub orders: Vec<(u8, u8)>,
     /// only graphs with at least this many edges
     pub min_edges: usize,
+    /// every graph is checked once after each primer call (see `primers`) made on the same thread
+    pub primed: bool,
+    /// query -> mutate -> query: every graph is checked, then mutated in place (see `MUTATION_LABELS`), then
+    /// checked again as the mutated graph, on the same object
+    pub histories: bool,
 }
 
 pub fn fam(kind: Kind, n: usize, walpha: &'static str, orders: &[(u8, u8)]) -> Family {
-    Family { kind, n, walpha, orders: orders.to_vec(), min_edges: 0 }
+    Family { kind, n, walpha, orders: orders.to_vec(), min_edges: 0, primed: false, histories: false }
+}
+
+/// the same family, each graph checked after every primer call on the same thread
+pub fn fam_primed(kind: Kind, n: usize, walpha: &'static str, orders: &[(u8, u8)]) -> Family {
+    Family { kind, n, walpha, orders: orders.to_vec(), min_edges: 0, primed: true, histories: false }
+}
+
+/// the same family with query -> mutate -> query histories on every graph
+pub fn fam_hist(kind: Kind, n: usize, walpha: &'static str, orders: &[(u8, u8)]) -> Family {
+    Family { kind, n, walpha, orders: orders.to_vec(), min_edges: 0, primed: false, histories: true }
+}
+
+pub const MUTATION_LABELS: [&str; 6] = [
+    "add_node(new name)",
+    "add_edge on the first absent pair",
+    "add_node(existing name) again",
+    "add_node(new name), then add_edge from the first node to it",
+    "add_edge parallel to the first edge, other weight (multi-edge kinds)",
+    "add_node again for every node",
+];
+
+/// applies mutation `k` to the real graph IN PLACE and to the abstract description; false = not applicable
+pub fn apply_mutation(b: &mut Built, k: usize, f: &Family) -> bool {
+    let w = walpha(f.walpha);
+    let mk = |u: N, v: N, wt: f64| std::sync::Arc::new(Edge { u, v, weight: wt, attributes: None });
+    let new_name = |b: &Built| if b.n < NAMES8.len() { Some(NAMES8[b.n]) } else { None };
+    match k {
+        0 | 3 => {
+            let nn = match new_name(b) {
+                Some(x) => x,
+                None => return false,
+            };
+            if k == 3 && b.n == 0 {
+                return false;
+            }
+            b.g.add_node(Node::from_name(nn));
+            b.names.push(nn);
+            b.node_order.push(b.n);
+            b.n += 1;
+            if k == 3 {
+                let first = b.node_order[0];
+                if b.g.add_edge(mk(b.names[first], nn, w[0])).is_err() {
+                    return false;
+                }
+                b.edges.push((first, b.n - 1, w[0]));
+            }
+            true
+        }
+        1 => {
+            for (u, v) in f.slots() {
+                let present = b.edges.iter().any(|e| (e.0 == u && e.1 == v) || (!f.kind.directed && e.0 == v && e.1 == u));
+                if !present {
+                    if b.g.add_edge(mk(b.names[u], b.names[v], w[0])).is_err() {
+                        return false;
+                    }
+                    b.edges.push((u, v, w[0]));
+                    return true;
+                }
+            }
+            false
+        }
+        2 => {
+            if b.n == 0 {
+                return false;
+            }
+            b.g.add_node(Node::from_name(b.names[b.node_order[0]]));
+            true
+        }
+        4 => {
+            if !f.kind.multi || b.edges.is_empty() {
+                return false;
+            }
+            let (u, v, _) = b.edges[0];
+            let wt = *w.last().unwrap();
+            if b.g.add_edge(mk(b.names[u], b.names[v], wt)).is_err() {
+                return false;
+            }
+            b.edges.push((u, v, wt));
+            true
+        }
+        _ => {
+            if b.n == 0 {
+                return false;
+            }
+            for i in b.node_order.clone() {
+                b.g.add_node(Node::from_name(b.names[i]));
+            }
+            true
+        }
+    }
+}
+
+thread_local! {
+    static CURRENT_MUTATION: std::cell::Cell<Option<usize>> = const { std::cell::Cell::new(None) };
+}
+
+thread_local! {
+    static CURRENT_PRIMER: std::cell::Cell<Option<usize>> = const { std::cell::Cell::new(None) };
+}
+
+/// Primer calls: one library call each, on a fixed graph that is LARGER than the graphs under check and
+/// that exits early / fails / succeeds in different ways. Whatever such a call leaves behind on the
+/// thread (scratch buffers, memo tables, pool state) must not change any later answer: a primed family
+/// re-checks every graph in the state after each primer (two-call histories across graphs).
+pub const PRIMER_LABELS: [&str; 12] = [
+    "single_source(weighted, target reached early, with_paths) on a 9-node weighted graph",
+    "single_source(weighted, cutoff 1.5, first_only) on a 9-node weighted graph",
+    "single_source(weighted) returning ContradictoryPaths on a 6-node digraph with a negative edge",
+    "single_source(weighted, with_paths, target) returning ContradictoryPaths on a 6-node digraph",
+    "all_pairs(weighted, cutoff 2, with_paths) on a 9-node weighted graph",
+    "multi_source(weighted, target, first_only) on a 9-node weighted graph",
+    "betweenness_centrality(weighted, normalized) on a 9-node weighted graph",
+    "closeness_centrality(weighted) on a 9-node weighted digraph",
+    "write_graphml_string then read_graphml_string of a 9-node weighted graph",
+    "louvain_partitions(weighted, seed 1) and modularity on a 9-node weighted graph",
+    "clustering(weighted), triangles, square_clustering on a 9-node weighted graph",
+    "eigenvector_centrality(weighted) on a 9-node weighted graph",
+];
+
+fn primer_graphs() -> (G2, G2, G2) {
+    let names = &NAMES32[..9];
+    let mk = |directed: bool, edges: &[(usize, usize, f64)], n: usize| {
+        let mut g = G2::new(if directed { GraphSpecs::directed() } else { GraphSpecs::undirected() });
+        for i in (0..n).rev() {
+            g.add_node(Node::from_name(names[i]));
+        }
+        for &(u, v, w) in edges {
+            g.add_edge(std::sync::Arc::new(Edge { u: names[u], v: names[v], weight: w, attributes: None })).expect("primer graph");
+        }
+        g
+    };
+    let und: Vec<(usize, usize, f64)> = vec![(0, 1, 1.0), (1, 2, 2.0), (2, 3, 1.0), (3, 4, 3.0), (4, 5, 1.0), (5, 6, 2.0), (6, 7, 1.0), (7, 8, 1.0), (8, 0, 4.0), (0, 4, 2.0), (2, 6, 5.0), (1, 7, 1.0), (3, 8, 2.0)];
+    let neg: Vec<(usize, usize, f64)> = vec![(0, 1, 1.0), (1, 2, 1.0), (2, 3, -2.0), (3, 4, 1.0), (4, 5, 1.0), (0, 5, 7.0), (1, 4, 3.0)];
+    (mk(false, &und, 9), mk(true, &und, 9), mk(true, &neg, 6))
+}
+
+pub fn run_primer(k: usize) {
+    use graphrs::algorithms::centrality::{betweenness, closeness, eigenvector};
+    use graphrs::algorithms::cluster;
+    use graphrs::algorithms::community::{louvain, partitions};
+    use graphrs::algorithms::shortest_path::dijkstra;
+    use graphrs::readwrite::graphml;
+    let (u, d, neg) = primer_graphs();
+    let nm = &NAMES32[..9];
+    // outcomes are not judged here (the checks judge these functions on their own inputs)
+    let _ = guarded(|| match k {
+        0 => drop(dijkstra::single_source(&u, true, nm[0], Some(nm[1]), None, false, true)),
+        1 => drop(dijkstra::single_source(&u, true, nm[3], None, Some(1.5), true, false)),
+        2 => drop(dijkstra::single_source(&neg, true, nm[0], None, None, false, false)),
+        3 => drop(dijkstra::single_source(&neg, true, nm[0], Some(nm[5]), None, false, true)),
+        4 => drop(dijkstra::all_pairs(&u, true, None, Some(2.0), false, true)),
+        5 => drop(dijkstra::multi_source(&u, true, vec![nm[8], nm[2]], Some(nm[3]), None, true, false)),
+        6 => drop(betweenness::betweenness_centrality(&u, true, true)),
+        7 => drop(closeness::closeness_centrality(&d, true, true)),
+        8 => {
+            if let Ok(s) = graphml::write_graphml_string(&u) {
+                drop(graphml::read_graphml_string(&s, GraphSpecs::undirected()));
+            }
+        }
+        9 => {
+            if let Ok(p) = louvain::louvain_partitions(&u, true, None, None, Some(1)) {
+                if let Some(last) = p.last() {
+                    drop(partitions::modularity(&u, last, true, None));
+                }
+            }
+        }
+        10 => {
+            drop(cluster::clustering(&u, true, None));
+            drop(cluster::triangles(&u, None));
+            drop(cluster::square_clustering(&u, None));
+        }
+        _ => drop(eigenvector::eigenvector_centrality(&u, true, None, None)),
+    });
 }
 
 pub const ORD_ALL: [(u8, u8); 6] = [(0, 0), (1, 0), (2, 0), (0, 1), (1, 1), (2, 1)];
@@ -135,7 +317,7 @@ impl Family {
         c
     }
     pub fn label(&self) -> String {
-        format!("{}:n{}:{}", self.kind.short(), self.n, self.walpha)
+        format!("{}:n{}:{}{}", self.kind.short(), self.n, self.walpha, if self.primed { ":primed" } else if self.histories { ":histories" } else { "" })
     }
 }
 
@@ -172,12 +354,23 @@ pub fn parse_case(case: &str) -> Option<(Family, u64, u8, u8, String)> {
         None => (case, String::new()),
     };
     let p: Vec<&str> = main.split(':').collect();
-    if p.len() != 7 || p[0] != "g" {
+    if !(p.len() == 7 || (p.len() == 8 && (p[7].starts_with('P') || p[7].starts_with('H')))) || p[0] != "g" {
         return None;
     }
-    let wa: &'static str = ["u", "w1", "w12", "w123", "w01", "w012", "wf", "wneg"].iter().find(|x| **x == p[3]).copied()?;
-    let f = Family { kind: Kind::from_idx(p[1].parse().ok()?), n: p[2].parse().ok()?, walpha: wa, orders: vec![], min_edges: 0 };
+    let wa: &'static str = ["u", "w1", "w12", "w123", "w01", "w012", "wf", "wneg", "wtiny", "whuge"].iter().find(|x| **x == p[3]).copied()?;
+    let f = Family { kind: Kind::from_idx(p[1].parse().ok()?), n: p[2].parse().ok()?, walpha: wa, orders: vec![], min_edges: 0, primed: p.len() == 8 && p[7].starts_with('P'), histories: p.len() == 8 && p[7].starts_with('H') };
     Some((f, p[4].parse().ok()?, p[5].parse().ok()?, p[6].parse().ok()?, extra))
+}
+
+/// primer index of a primed case ("g:...:P<k>")
+pub fn case_primer(case: &str) -> Option<usize> {
+    let main = case.split('|').next().unwrap_or("");
+    let p: Vec<&str> = main.split(':').collect();
+    if p.len() == 8 {
+        p[7].strip_prefix('P').or(p[7].strip_prefix('H')).and_then(|x| x.parse().ok())
+    } else {
+        None
+    }
 }
 
 pub fn build(f: &Family, idx: u64, no: u8, eo: u8) -> Built {
@@ -199,25 +392,116 @@ pub fn build(f: &Family, idx: u64, no: u8, eo: u8) -> Built {
             }
         }
     }
-    let node_order: Vec<usize> = match no {
+    let mut node_order: Vec<usize> = match no % 10 {
         0 => (0..f.n).collect(),
         1 => (0..f.n).rev().collect(),
         _ => (0..f.n).map(|i| (i + 1) % f.n.max(1)).collect(),
     };
-    let mut g = G2::new(f.kind.specs());
-    for &i in &node_order {
-        g.add_node(Node::from_name(names[i]));
-    }
-    for &(u, v, w) in &edges {
-        g.add_edge(std::sync::Arc::new(Edge { u: names[u], v: names[v], weight: w, attributes: None })).expect("E2 build: add_edge failed");
+    // construction route (no / 10): the same abstract graph reached through different API histories
+    let route = no / 10;
+    let mk_edge = |&(u, v, w): &(usize, usize, f64)| std::sync::Arc::new(Edge { u: names[u], v: names[v], weight: w, attributes: None });
+    let plain = |order: &[usize]| {
+        let mut g = G2::new(f.kind.specs());
+        for &i in order {
+            g.add_node(Node::from_name(names[i]));
+        }
+        for e in &edges {
+            g.add_edge(mk_edge(e)).expect("E2 build: add_edge failed");
+        }
+        g
+    };
+    let g = match route {
+        0 => plain(&node_order),
+        1 => {
+            // edges first (nodes created on first mention), then every node added again
+            let mut specs = f.kind.specs();
+            specs.missing_node_strategy = MissingNodeStrategy::Create;
+            let mut g = G2::new(specs);
+            for e in &edges {
+                g.add_edge(mk_edge(e)).expect("E2 build (route 1): add_edge failed");
+            }
+            for &i in &node_order {
+                g.add_node(Node::from_name(names[i]));
+            }
+            g
+        }
+        2 => {
+            // the result of other API calls: reverse of the reverse / the subgraph on all nodes
+            let g0 = plain(&node_order);
+            if f.kind.directed {
+                g0.reverse().expect("reverse").reverse().expect("reverse")
+            } else {
+                let mut all: Vec<N> = names.clone();
+                all.reverse();
+                g0.get_subgraph(&all)
+            }
+        }
+        3 => {
+            let nodes = node_order.iter().map(|&i| Node::from_name(names[i])).collect();
+            G2::new_from_nodes_and_edges(nodes, edges.iter().map(mk_edge).collect(), f.kind.specs()).expect("E2 build (route 3): new_from_nodes_and_edges failed")
+        }
+        5 | 6 => {
+            // other policy options under which the same calls give the same graph (no duplicate is ever
+            // offered to a single-edge graph; parallel edges are kept whatever the duplicate policy)
+            let mut specs = f.kind.specs();
+            specs.edge_dedupe_strategy = if route == 5 { EdgeDedupeStrategy::KeepLast } else { EdgeDedupeStrategy::KeepFirst };
+            specs.missing_node_strategy = MissingNodeStrategy::Create;
+            specs.self_loops_false_strategy = SelfLoopsFalseStrategy::Drop;
+            let mut g = G2::new(specs);
+            for &i in &node_order {
+                g.add_node(Node::from_name(names[i]));
+            }
+            for e in &edges {
+                g.add_edge(mk_edge(e)).expect("E2 build (route 5/6): add_edge failed");
+            }
+            g
+        }
+        _ => {
+            // equal edges are one shared Arc (edge objects handed out by one graph may be added to another)
+            let mut cache: std::collections::HashMap<(usize, usize, u64), std::sync::Arc<Edge<N, ()>>> = std::collections::HashMap::new();
+            let mut g = G2::new(f.kind.specs());
+            for &i in &node_order {
+                g.add_node(Node::from_name(names[i]));
+            }
+            for e in &edges {
+                let a = cache.entry((e.0, e.1, e.2.to_bits())).or_insert_with(|| mk_edge(e)).clone();
+                g.add_edge(a).expect("E2 build (route 4): add_edge failed");
+            }
+            g
+        }
+    };
+    if route != 0 {
+        node_order = g.get_all_nodes().iter().map(|nd| names.iter().position(|x| *x == nd.name).expect("node name")).collect();
     }
     Built { kind: f.kind, n: f.n, names, edges, node_order, g, case: case_string(f, idx, no, eo), weighted: f.walpha != "u" }
 }
 
+pub const ROUTE_LABELS: [&str; 7] = [
+    "nodes added, then edges",
+    "edges added first under MissingNodeStrategy::Create, then every node added again",
+    "result of reverse().reverse() (directed) / get_subgraph(all nodes) (undirected)",
+    "new_from_nodes_and_edges",
+    "nodes added, then edges, equal parallel edges being one shared Arc",
+    "nodes added, then edges, specs with KeepLast / Create / Drop policies",
+    "nodes added, then edges, specs with KeepFirst / Create / Drop policies",
+];
+/// order variants covering every construction route
+pub const ORD_ROUTES: [(u8, u8); 6] = [(12, 1), (22, 0), (32, 1), (42, 1), (52, 0), (62, 1)];
+
 impl Built {
     pub fn describe(&self) -> String {
+        let pre = match CURRENT_PRIMER.with(|c| c.get()) {
+            Some(k) => format!("[on a thread whose previous library call was primer {k}: {}] ", PRIMER_LABELS[k]),
+            None => String::new(),
+        };
+        let pre = match CURRENT_MUTATION.with(|c| c.get()) {
+            Some(k) => format!("{pre}[the graph below was first built WITHOUT the last step, queried by this same check, and then mutated in place by: {}] ", MUTATION_LABELS[k]),
+            None => pre,
+        };
+        let route = self.case.split(':').nth(5).and_then(|x| x.parse::<usize>().ok()).map(|no| no / 10).unwrap_or(0);
+        let pre = if self.case.starts_with("g:") && route > 0 && route < ROUTE_LABELS.len() { format!("{pre}[built by route {route}: {}] ", ROUTE_LABELS[route]) } else { pre };
         format!(
-            "{} graph, nodes inserted {:?}, edges inserted {:?}",
+            "{pre}{} graph, nodes in order {:?}, edges inserted {:?}",
             if self.kind.directed { "directed" } else { "undirected" }.to_string() + if self.kind.multi { " multi" } else { "" } + if self.kind.loops { " (loops allowed)" } else { "" },
             self.node_order.iter().map(|&i| self.names[i]).collect::<Vec<_>>(),
             self.edges.iter().map(|&(u, v, w)| if w.is_nan() { format!("{}-{}", self.names[u], self.names[v]) } else { format!("{}-{}:{}", self.names[u], self.names[v], w) }).collect::<Vec<_>>()
@@ -284,11 +568,45 @@ where
         None => return false,
     };
     let lo = idx - idx % CHUNK;
+    let want_primer = case_primer(case);
     let r = on_fresh_thread_scoped(hash_seed, || {
         for i in lo..=idx {
             for &(n2, e2) in orders {
-                let b = build(&fam, i, n2, e2);
+                let mut b = build(&fam, i, n2, e2);
                 if b.edges.len() < min_edges {
+                    continue;
+                }
+                if fam.histories {
+                    let base = b.case.clone();
+                    for mk in 0..MUTATION_LABELS.len() {
+                        let mut b2 = build(&fam, i, n2, e2);
+                        f(&b2, false);
+                        if apply_mutation(&mut b2, mk, &fam) {
+                            CURRENT_MUTATION.with(|c| c.set(Some(mk)));
+                            b2.case = format!("{base}:H{mk}");
+                            let target = i == idx && n2 == no && e2 == eo && want_primer == Some(mk);
+                            f(&b2, target);
+                            CURRENT_MUTATION.with(|c| c.set(None));
+                            if target {
+                                return true;
+                            }
+                        }
+                    }
+                    continue;
+                }
+                if fam.primed {
+                    let base = b.case.clone();
+                    for pk in 0..PRIMER_LABELS.len() {
+                        run_primer(pk);
+                        CURRENT_PRIMER.with(|c| c.set(Some(pk)));
+                        b.case = format!("{base}:P{pk}");
+                        let target = i == idx && n2 == no && e2 == eo && want_primer == Some(pk);
+                        f(&b, target);
+                        CURRENT_PRIMER.with(|c| c.set(None));
+                        if target {
+                            return true;
+                        }
+                    }
                     continue;
                 }
                 let target = i == idx && n2 == no && e2 == eo;
@@ -348,8 +666,38 @@ where
             let mut calls = 0u64;
             for idx in lo..hi {
                 for &(no, eo) in &fam.orders {
-                    let b = build(fam, idx, no, eo);
+                    let mut b = build(fam, idx, no, eo);
                     if b.edges.len() < fam.min_edges {
+                        continue;
+                    }
+                    if fam.primed {
+                        let base = b.case.clone();
+                        for pk in 0..PRIMER_LABELS.len() {
+                            run_primer(pk);
+                            CURRENT_PRIMER.with(|c| c.set(Some(pk)));
+                            b.case = format!("{base}:P{pk}");
+                            calls += f(&b, &mut c);
+                            CURRENT_PRIMER.with(|c| c.set(None));
+                            c.inc("graph_checks_after_primer_call");
+                        }
+                        graphs += 1;
+                        continue;
+                    }
+                    if fam.histories {
+                        let base = b.case.clone();
+                        for mk in 0..MUTATION_LABELS.len() {
+                            let mut b2 = build(fam, idx, no, eo);
+                            // the queries on the object before the mutation (their verdicts are part of the run)
+                            calls += f(&b2, &mut c);
+                            if apply_mutation(&mut b2, mk, fam) {
+                                CURRENT_MUTATION.with(|c| c.set(Some(mk)));
+                                b2.case = format!("{base}:H{mk}");
+                                calls += f(&b2, &mut c);
+                                CURRENT_MUTATION.with(|c| c.set(None));
+                                c.inc("graph_checks_after_query_then_mutation");
+                            }
+                        }
+                        graphs += 1;
                         continue;
                     }
                     calls += f(&b, &mut c);
